@@ -14,6 +14,15 @@ const UNK: &[u8] = b"DEFAULT,0,0,100,*\nSPACE,0,0,10,*\n";
 
 fuzz_target!(|data: &[u8]| {
     let p = split_payloads(data, &[RIGHT, LEFT, COST, LEX]);
+    // outside the domain (DESIGN §9): costs whose sums can leave the i32 range; the accumulators are unprotected by
+    // design and cargo-fuzz builds with overflow checks, so such inputs would only report the arithmetic itself
+    let mut digits = 0usize;
+    for &b in p[2] {
+        digits = if b.is_ascii_digit() { digits + 1 } else { 0 };
+        if digits > 6 {
+            return;
+        }
+    }
     let build = |dual: bool| vibrato::SystemDictionaryBuilder::from_readers_with_bigram_info(p[3], p[0], p[1], p[2], CHARDEF, UNK, dual);
     let raw = build(false);
     let dual = build(true);
